@@ -72,6 +72,12 @@ def has_shared_withitems(x):
 
 
 class C13(ProgramProperty):
+    fuzz_target = 'fuzz_locate'
+
+    def fuzz_seeds(self):
+        from ..fuzz import program_seeds
+        return program_seeds()
+
     id = 'C13'
     configs = ('B', 'A')
     technique = ('differential property testing (PyGen programs with non-ASCII, mixed line endings, BOM and out-of-source-order constructs): linear locator vs '
